@@ -716,3 +716,71 @@ def edgelist_lines(rng, count, maxnodes=7, maxedges=12):
 
 EDGELIST_CODES = {1: "malformed record", 310: "edge-list reader failed", 311: "number of nodes differs from the text",
                   312: "edges (end nodes / order / row-column labels) differ from the text", 313: "node labels differ from the text"}
+
+
+def cligraph_lines(rng, count, maxnodes=7, maxextra=8):
+    """cases for cli:cligraph — edge-list files denoting a (di)graph with a spanning forest labeled r1..rk and the other
+    edges labeled c1..cl (one file in ten has unlabeled edges: outside the model), lines in random order, label styles and whitespace mixed; one in ten files
+    has a label set that is no spanning forest / incomplete (outside the model, must still not crash)"""
+    out = []
+    namesets = [lambda k: "v%d" % k, lambda k: str(k + 1), lambda k: chr(97 + k), lambda k: ("a", "ab", "abc", "b", "ba", "A", "aB")[k % 7]]
+    for i in range(count):
+        nn = 1 + rng.below(maxnodes)
+        nm = namesets[rng.below(len(namesets))]
+        # random forest: each node > 0 attaches to an earlier node with probability 4/5
+        comp_edges = []
+        for v in range(1, nn):
+            if rng.below(5):
+                u = rng.below(v)
+                comp_edges.append((u, v) if rng.below(2) else (v, u))
+        forest = list(comp_edges)
+        # components
+        comp = list(range(nn))
+        def find(x):
+            while comp[x] != x:
+                x = comp[x]
+            return x
+        for u, v in forest:
+            comp[find(u)] = find(v)
+        extra = []
+        for _ in range(rng.below(maxextra + 1)):
+            u = rng.below(nn)
+            cands = [w for w in range(nn) if find(w) == find(u)]
+            extra.append((u, rng.choice(cands)))
+        edges = [(u, v, -(k + 1)) for k, (u, v) in enumerate(rng.shuffle(forest))]
+        col = 0
+        unl = rng.below(10) == 0
+        for (u, v) in extra:
+            if unl and rng.below(3) == 0:
+                edges.append((u, v, 0))
+            else:
+                col += 1
+                edges.append((u, v, col))
+        if rng.below(10) == 0 and edges:
+            k = rng.below(len(edges))
+            u, v, e = edges[k]
+            edges[k] = (u, v, rng.choice([-e, e + 1, 0, 7]))
+        edges = rng.shuffle(edges)
+        text = ""
+        for (u, v, e) in edges:
+            ws = lambda: rng.choice([" ", " ", "\t", "  "])
+            line = rng.choice(["", "", " "]) + nm(u) + ws() + nm(v)
+            if e < 0:
+                line += ws() + rng.choice(["r", "R", "t", "T", "-"]) + str(-e)
+            elif e > 0:
+                line += ws() + rng.choice(["c", "C", ""]) + str(e)
+            text += line + rng.choice(["", "", " "]) + "\n"
+        if rng.below(8) == 0 and text:
+            text = text[:-1]
+        b = [ord(c) for c in text]
+        out.append("%d %d %d %d %s" % (rng.below(2), rng.below(2), rng.below(2), len(b), " ".join(map(str, b))))
+    return out
+
+
+CLIGRAPH_CODES = {1: "malformed record", 331: "tool failed on a well-formed edge-list file", 332: "tool wrote no matrix",
+                  333: "tool output does not follow the matrix format",
+                  334: "tool output is not the representation matrix of the graph, forest and coforest the file denotes"}
+CLIMAT_CODES = {1: "malformed record", 320: "cmr-matrix wrote a matrix although the input text is malformed",
+                321: "cmr-matrix failed on a well-formed input", 322: "cmr-matrix wrote no output",
+                323: "cmr-matrix output does not follow the documented format",
+                324: "cmr-matrix output is not the requested submatrix / transpose / support of the input"}
